@@ -68,7 +68,8 @@ type Result struct {
 	Points    int64 // scheduling points passed
 	Switches  int64
 	Threads   int
-	LibParked int // library-spawned threads still parked when all harness threads had finished
+	LibParked int      // library-spawned threads still parked when all harness threads had finished
+	Notes     []string // lock-discipline findings (T7)
 }
 
 type opDesc struct {
@@ -86,6 +87,7 @@ type thread struct {
 	started bool
 	opSteps int64
 	label   string
+	held    []interface{} // locks currently held (T7)
 	// channel hand-off
 	xfer   interface{}
 	xferOK bool
@@ -106,6 +108,7 @@ type exec struct {
 	done       chan struct{}
 	wg         sync.WaitGroup
 	finished   bool
+	acc        map[accKey]*accState
 }
 
 var cur *exec
@@ -495,4 +498,105 @@ func LiveLibThreads() int {
 		}
 	}
 	return n
+}
+
+// ---------------------------------------------------------------- lock discipline (T7)
+//
+// The instrumented build reports every access to the lock-protected fields of
+// a version handle (rootNodeLoc.refs and its chain fields).  For each (object,
+// field) the scheduler keeps the Eraser state machine: exclusive to the first
+// thread; once a second thread touches it, the candidate lock set is the
+// intersection of the locks held at every access from then on.  An empty set
+// means no single lock protects the field: with real parallelism the updates
+// race (lost reference counts), although under this scheduler - where code
+// between two points is atomic - nothing would ever go wrong.
+
+// NoteLock / NoteUnlock are called by vsync.
+func NoteLock(l interface{}) {
+	e := cur
+	if e == nil || e.aborted || e.running == nil {
+		return
+	}
+	e.running.held = append(e.running.held, l)
+}
+
+func NoteUnlock(l interface{}) {
+	e := cur
+	if e == nil || e.aborted || e.running == nil {
+		return
+	}
+	h := e.running.held
+	for i := len(h) - 1; i >= 0; i-- {
+		if h[i] == l {
+			e.running.held = append(h[:i], h[i+1:]...)
+			return
+		}
+	}
+}
+
+type accKey struct {
+	obj   interface{}
+	field string
+}
+
+type accState struct {
+	owner    *thread
+	shared   bool
+	cand     []interface{}
+	reported bool
+}
+
+// Access records an access of the running thread to a lock-protected field.
+func Access(obj interface{}, field string) {
+	e := cur
+	if e == nil || e.aborted || e.running == nil || obj == nil {
+		return
+	}
+	if e.acc == nil {
+		e.acc = map[accKey]*accState{}
+	}
+	k := accKey{obj, field}
+	st := e.acc[k]
+	t := e.running
+	if st == nil {
+		e.acc[k] = &accState{owner: t}
+		return
+	}
+	if !st.shared {
+		if st.owner == t {
+			return
+		}
+		st.shared = true
+		st.cand = append([]interface{}{}, t.held...)
+	} else {
+		var keep []interface{}
+		for _, c := range st.cand {
+			for _, h := range t.held {
+				if c == h {
+					keep = append(keep, c)
+					break
+				}
+			}
+		}
+		st.cand = keep
+	}
+	if len(st.cand) == 0 && !st.reported {
+		st.reported = true
+		if len(e.res.Notes) < 4 {
+			e.res.Notes = append(e.res.Notes, fmt.Sprintf("lock discipline: field %s of a version handle is accessed by threads %d and %d without a common lock (thread %d holds %d lock(s))", field, st.owner.id, t.id, t.id, len(t.held)))
+		}
+	}
+}
+
+// AccessReset forgets what is known about obj (it was just (re)allocated).
+func AccessReset(obj interface{}) {
+	e := cur
+	if e == nil || e.acc == nil {
+		return
+	}
+	for k := range e.acc {
+		if k.obj == obj {
+			delete(e.acc, k)
+		}
+	}
 }
